@@ -267,6 +267,14 @@ func (e *Engine) evalSpec(cur, old *State, x SExpr, env *SpecEnv) Val {
 				}
 			}
 		}
+		// a ghost field of a struct that is embedded by value (x.mu.g_held): found through the address
+		if strings.HasPrefix(n.Name, "g_") {
+			if pt, addr, ok := e.structAddr(cur, old, n.X, env); ok {
+				if g := e.P.ghostField(pt, n.Name); g != nil {
+					return e.loadGhost(cur, pt, g, addr)
+				}
+			}
+		}
 		base := e.evalSpec(cur, old, n.X, env)
 		return e.specField(cur, base, n.Name, x)
 	case SAssert:
